@@ -528,10 +528,23 @@ impl Drop for TK {
     }
 }
 
+thread_local! {
+    static DEBUG_IDS: Cell<bool> = const { Cell::new(false) };
+}
+/// while on, `Debug` of a tracked key also prints which object it is (`k3#17`): equal keys of
+/// different containers render differently, as they do for any type whose `==` ignores part of
+/// what its `Debug` prints
+pub fn debug_ids(on: bool) {
+    DEBUG_IDS.with(|c| c.set(on));
+}
 impl fmt::Debug for TK {
     fn fmt(&self, f: &mut fmt::Formatter<'_>) -> fmt::Result {
         ledger_touch(self.serial, self.magic, "key fmt");
-        write!(f, "k{}", self.raw.0)
+        if DEBUG_IDS.with(|c| c.get()) {
+            write!(f, "k{}#{}", self.raw.0, self.serial)
+        } else {
+            write!(f, "k{}", self.raw.0)
+        }
     }
 }
 impl fmt::Display for TK {
